@@ -238,6 +238,7 @@ func (f *Frame) doUnOp(x *ssa.UnOp) {
 		lv := f.lvOf(x.X)
 		v := f.setVal(x, f.load(lv, x.Type()))
 		f.loadFactsB(v, x.Type(), f.lvBound(lv))
+		f.dataInvFacts(v, x.Type(), lv, x.X)
 	case token.NOT:
 		f.setVal(x, Not(f.val(x.X)))
 	case token.SUB:
@@ -269,6 +270,40 @@ func (f *Frame) loadFactsB(v T, t types.Type, bound T) {
 	case *types.Slice:
 		f.enc.factAbout(v, Le(SPtr(v), bound))
 	}
+}
+
+// dataInvFacts: declared (trusted) data-structure invariants of loaded fields and slice elements.
+func (f *Frame) dataInvFacts(v T, t types.Type, lv *LV, addr ssa.Value) {
+	var cl *Clause
+	var what string
+	switch lv.kind {
+	case lvField:
+		what = strings.TrimPrefix(lv.arr, "H_")
+		cl = f.p.fieldInvs[what]
+	case lvElem:
+		if ia, ok := addr.(*ssa.IndexAddr); ok {
+			if st, ok := ia.X.Type().Underlying().(*types.Slice); ok {
+				what = "[]" + f.p.typeNameOrString(st.Elem())
+				cl = f.p.elemInvs[what]
+			}
+		}
+	}
+	if cl == nil {
+		return
+	}
+	tr := &Translator{f: f, cur: f.st, old: f.st, bound: map[string]tv{"v": {v, t}}}
+	f.enc.factAbout(v, tr.boolExpr(cl.Expr))
+	f.enc.assumed["data-structure invariant (trusted, established by the parsers): "+what+": "+cl.Src] = true
+}
+
+func (p *Program) typeNameOrString(t types.Type) string {
+	if ptr, ok := t.(*types.Pointer); ok {
+		return "*" + p.typeNameOrString(ptr.Elem())
+	}
+	if _, ok := t.(*types.Named); ok {
+		return p.typeName(t)
+	}
+	return types.TypeString(t, nil)
 }
 
 func (f *Frame) lvBound(lv *LV) T {
@@ -467,6 +502,10 @@ func (f *Frame) ifaceEq(x *ssa.BinOp, a, b T) T {
 		return Eq(App(SInt, "tag", a), Zero)
 	}
 	// comparing two dynamic values panics when both hold the same uncomparable type
+	if f.p.comparable[f.p.typeName(x.X.Type())] || f.p.comparable[f.p.typeName(x.Y.Type())] {
+		f.enc.assumed["dynamic types of interface "+f.p.typeName(x.X.Type())+" are comparable (pointer types)"] = true
+		return Eq(a, b)
+	}
 	if f.checks("panic") {
 		unc := f.uncomparableTag(App(SInt, "tag", a))
 		f.oblige("panic", "uncomparable-iface-compare", x.Pos(), Not(And(Eq(App(SInt, "tag", a), App(SInt, "tag", b)), unc)))
